@@ -314,6 +314,12 @@ impl Catalog {
 
 /// run one op, a panic becomes `Ans::Panic`
 pub fn run_op(rt: &tokio::runtime::Runtime, cat: &Catalog, op: &Op) -> Ans {
+    if std::env::var("HX_VERBOSE").is_ok() {
+        return match std::panic::catch_unwind(std::panic::AssertUnwindSafe(|| rt.block_on(cat.run(op)))) {
+            Ok(a) => a,
+            Err(_) => Ans::Panic,
+        };
+    }
     match hxlib::util::catch(|| rt.block_on(cat.run(op))) {
         Ok(a) => a,
         Err(_) => Ans::Panic,
